@@ -3810,6 +3810,12 @@ static int bufr_load_datasubsets( FILE *fp, BUFR_Dataset *dts, int lineno, BUFR_
             cb->value->af->bits = afbits;
          else
             {
+            int slen = strlen( ligne ) + 64; /* the message quotes the whole line */
+            if (slen >= arr_count(dstrptr) )
+               {
+               arr_inc( dstrptr, slen );
+               errmsg = arr_get( dstrptr, 0 );
+               }
             sprintf( errmsg, _("Warning: can't set AF at line %d : %s"), lineno-1,  ligne );
             bufr_print_debug( errmsg );
             }
